@@ -34,8 +34,19 @@ ValVerdict(r) ==
   ELSE IF e # "ok" /\ o = "ok" THEN <<"prop", "invalid-setting-accepted">>
   ELSE IF e # o THEN <<"abs", "validation-class">>
   ELSE <<"ok", "ok">>
+\* kind "args": the other arguments of the constructor and of get_date_data in abstract form (Validate.tla)
+ObservedArgs(r) == IF r.exc = "" THEN "ok"
+                   ELSE IF \E i \in 1..Len(r.mro) : r.mro[i] = "TypeError" THEN "typeerror"
+                   ELSE IF \E i \in 1..Len(r.mro) : r.mro[i] = "ValueError" THEN "valueerror" ELSE "other"
+ArgsCheck(r) ==
+  LET e == ArgsVerdict(r.c)  o == ObservedArgs(r) IN
+  IF o = "other" THEN PrintT(<<"REJECT", r.tid, "prop", "undocumented-exception-escaped", e>>)
+  ELSE IF e[2] = "ok" /\ o # "ok" /\ r.wellformed THEN PrintT(<<"REJECT", r.tid, "prop", "valid-arguments-rejected", e>>)
+  ELSE IF <<r.phase, o>> # e /\ ~(o = "ok" /\ e[2] = "ok") THEN PrintT(<<"REJECT", r.tid, "abs", "argument-check", e>>)
+  ELSE TRUE
 Check(r) ==
-  IF r.kind = "ploop" THEN (IF ParserLoopOK(r.parsers, r.tries, r.found) THEN TRUE ELSE PrintT(<<"REJECT", r.tid, "abs", "parser-loop", r.tries>>))
+  IF r.kind = "args" THEN ArgsCheck(r)
+  ELSE IF r.kind = "ploop" THEN (IF ParserLoopOK(r.parsers, r.tries, r.found) THEN TRUE ELSE PrintT(<<"REJECT", r.tid, "abs", "parser-loop", r.tries>>))
   ELSE IF r.kind = "val" THEN (LET v == ValVerdict(r) IN IF v[1] = "ok" THEN TRUE ELSE PrintT(<<"REJECT", r.tid, v[1], v[2], ArgVerdict(r.argkind, r.d)>>))
   ELSE IF r.kind = "abs" THEN (IF AbsVerdict(r) = "drift" THEN PrintT(<<"REJECT", r.tid, "abs", "absparser", AbsModel(r)>>) ELSE TRUE)
   ELSE IF r.kind = "nsp" THEN
